@@ -93,7 +93,7 @@ class ModuleInfo(object):
         if os.environ.get("LASIO_SA_NORMALIZE", "1") != "0":
             from .normalize import normalize, extern_helpers
             ext = extern_helpers(self.tree, name, raw_trees or {})
-            self.normalized = normalize(self.tree, ext)
+            self.normalized = normalize(self.tree, ext, name)
         self.lines = source.splitlines()
         # alias -> ("module", modname) | ("name", modname, attr)
         self.imports = {}
@@ -143,7 +143,7 @@ class Project(object):
         self.digest = h.hexdigest()
         if os.environ.get("LASIO_SA_NORMALIZE", "1") != "0":
             from .normalize import propagate_default_params, fold_constant_strings, lower_getsetattr, inline_helpers, \
-                inline_expression_helpers, extern_helpers
+                inline_expression_helpers, extern_helpers, _collapse_result_copies
             trees = {m.name: m.tree for m in self.modules.values()}
             for t in trees.values():
                 for c in t.body:
@@ -154,7 +154,10 @@ class Project(object):
             for _round in range(3):
                 n = propagate_default_params(trees)
                 for m in self.modules.values():
-                    n += fold_constant_strings(m.tree)
+                    k = fold_constant_strings(m.tree)
+                    if k:
+                        _collapse_result_copies(m.tree)      # pruned branches leave `tmp = x; use(tmp)` chains behind
+                    n += k
                     lower_getsetattr(m.tree)
                     ext = extern_helpers(m.tree, m.name, raw_trees)
                     n += inline_helpers(m.tree, ext)
@@ -165,6 +168,14 @@ class Project(object):
             for node in ast.walk(m.tree):
                 for child in ast.iter_child_nodes(node):
                     child._parent = node
+            # textual order after normalisation (expanded helper bodies keep the helper's line numbers, for reporting)
+            k = 0
+            stack = [m.tree]
+            while stack:
+                node = stack.pop()
+                node._ord = k
+                k += 1
+                stack.extend(reversed(list(ast.iter_child_nodes(node))))
         for mod in self.modules.values():
             self._index_module(mod)
         for cls in self.classes.values():
